@@ -132,7 +132,7 @@ impl Nor {
         self.tick().map_err(NorErr::Custom)?;
         self.reads += 1;
         if a.checked_add(buf.len()).map(|e| e > self.mem.len()).unwrap_or(true) {
-            self.oob += 1;
+            // a refused read is not an access; only mutating requests beyond the device are counted
             return Err(NorErr::Oob);
         }
         buf.copy_from_slice(&self.mem[a..a + buf.len()]);
